@@ -218,7 +218,11 @@ def _shuffle(chunks, indexer, axis, in_name, out_name, token):
 
     intermediates = dict()
     merges = dict()
-    dtype = np.min_scalar_type(max(*chunks[axis], chunk_size_limit))
+    # wide enough for offsets into the input chunks and for positions in
+    # the output chunks (a group that cannot be split may exceed the limit)
+    dtype = np.min_scalar_type(
+        max(*chunks[axis], chunk_size_limit, *map(len, new_chunks))
+    )
     split_name = f"shuffle-split-{token}"
     slices = [slice(None)] * len(chunks)
     split_name_suffixes = count()
